@@ -22,8 +22,8 @@ func init() {
 		Rules: map[string]string{
 			"R1": "for every type implementing Watcher: a MakeChan or go statement in Updates() is inside a function passed to sync.Once.Do (or guarded by a nil check of the field it initialises), OR no call site of Watcher.Updates lies in a CFG cycle; the implementations must agree",
 			"R4": "every send in a goroutine started by a Watcher implementation's Updates is a state of a select that also receives from a channel closed (builtin close) in that type's Stop: a watcher stopped with undelivered entries leaves no goroutine behind",
-			"R3": "in the forwarding goroutine(s) of every Watcher.Updates implementation every send to the adapter's channel is blocking (a plain send or a select without default)",
-			"R2": "each method M of an adapter type wrapping a store object calls exactly one method named M on the wrapped object, passes its own parameters (key, value, rev) in the same positions, and its results flow to the return values",
+			"R3": "in the forwarding goroutine(s) of every Watcher.Updates implementation every send to the adapter's channel is blocking (a plain send or a select without default); a wrapper object that is sent is allocated inside the receive loop (one per event), not once before it",
+			"R2": "each method M of an adapter type wrapping a store object calls exactly one method named M on the wrapped object, passes its own parameters (key, value, rev) in the same positions, and its results flow to the return values; the error result is the wrapped call's error value itself (no text added: C15 classifies by text)",
 		},
 	})
 }
@@ -62,6 +62,52 @@ func watchForwardingRule(c *Ctx, rule string) {
 			})
 		}
 		c.check(nSend > 0, rule, "forwarding goroutine of "+n.Obj().Name()+" sends what it receives", firstInstr(up), "%d send sites", nSend)
+		// every delivered entry is its own object: a wrapper allocated once and refilled per event is
+		// overwritten with event n+1 while the reader still holds (or has not yet read) event n - the
+		// reader misses a change and sees a later one twice
+		for _, g := range m.reachWithFuncArgs(up) {
+			eachInstr(g, func(in ssa.Instruction) {
+				var sent ssa.Value
+				switch x := in.(type) {
+				case *ssa.Send:
+					sent = x.X
+				case *ssa.Select:
+					for _, st := range x.States {
+						if st.Dir == types.SendOnly {
+							sent = st.Send
+						}
+					}
+				}
+				if sent == nil {
+					return
+				}
+				var stale []string
+				var walk func(v ssa.Value, depth int)
+				walk = func(v ssa.Value, depth int) {
+					if depth > 8 {
+						return
+					}
+					v = m.traceValue(v)
+					switch y := v.(type) {
+					case *ssa.Phi:
+						for _, e := range y.Edges {
+							walk(e, depth+1)
+						}
+					case *ssa.MakeInterface:
+						walk(y.X, depth+1)
+					case *ssa.ChangeInterface:
+						walk(y.X, depth+1)
+					case *ssa.Alloc:
+						// allocated once per event: inside a loop of its function (the receive loop)
+						if y.Heap && !inLoop(y.Block()) && len(cfgLoops(y.Parent())) > 0 {
+							stale = append(stale, "wrapper allocated at "+c.posOf(y)+" outside the receive loop and refilled per event")
+						}
+					}
+				}
+				walk(sent, 0)
+				c.check(len(stale) == 0, rule, "each forwarded entry is a fresh object in "+shortFn(g), in, "%v", stale)
+			})
+		}
 	}
 }
 
@@ -427,6 +473,16 @@ func adapterForwardingRule(c *Ctx, rule string) {
 					for i := range ret.Results {
 						v := returnValue(ret, i)
 						isErr := isErrorType(f.Signature.Results().At(i).Type())
+						if isErr && !errIdentity(v, call, errIdx, 0) {
+							// the classifiers (C15) read the error's TEXT: an adapter that adds its own
+							// words (or caller-supplied ones: the key is the group name) to the client's
+							// error changes what the heartbeat and the retry loop make of it
+							if _, isC := v.(*ssa.Const); !isC {
+								okArgs = false
+								detail = append(detail, fmt.Sprintf("the error returned at %s (%s) is not the wrapped call's error itself: text added to it takes part in the substring classification of IsPermanentError / IsTransientError (a group named \"authentication-service\" would make every time-out permanent)", c.posOf(ret), clip(m.Sym.Of(v).String(), 80)))
+								continue
+							}
+						}
 						if derivesFrom(v, call, 0) {
 							continue
 						}
@@ -596,6 +652,30 @@ func paramNames(ps []*ssa.Parameter) []string {
 		out = append(out, p.Name())
 	}
 	return out
+}
+
+// errIdentity: v is the error result of call itself (result #idx), possibly through phis whose
+// other alternatives are nil.
+func errIdentity(v ssa.Value, call *ssa.Call, idx int, depth int) bool {
+	if depth > 6 || v == nil {
+		return false
+	}
+	switch x := v.(type) {
+	case *ssa.Call:
+		return x == call && call.Call.Signature().Results().Len() == 1
+	case *ssa.Extract:
+		return x.Tuple == ssa.Value(call) && x.Index == idx
+	case *ssa.Const:
+		return x.Value == nil
+	case *ssa.Phi:
+		for _, e := range x.Edges {
+			if !errIdentity(e, call, idx, depth+1) {
+				return false
+			}
+		}
+		return true
+	}
+	return false
 }
 
 // derivesFrom: v is computed from src (extract, wrap in a struct literal, phi, conversion).
